@@ -505,6 +505,21 @@ func TestHistograms(t *testing.T) {
 			if uint32(finite) > limit {
 				vt.Fail(t, "C08:histogram-over-limit", "%d finite buckets with limit %d", finite, limit)
 			}
+			// when the listed bounds are pairwise distinct the limit is the only reason to omit one: exactly
+			// min(limit, number of valid bounds) finite buckets (which ones survive is not stated and not asserted)
+			if len(parsedSet) == len(parsed) {
+				wantN := len(parsed)
+				if uint32(wantN) > limit {
+					wantN = int(limit)
+				}
+				infListed := 0
+				if parsedSet[math.Inf(1)] {
+					infListed = 1 // a listed +Inf coincides with the implicit +Inf bucket
+				}
+				if finite < wantN-infListed || finite > wantN {
+					vt.Fail(t, "C08:histogram-bucket-count", "tag %q with limit %d: %d finite buckets reported, %d valid distinct bounds listed (%v)", tag, limit, finite, len(parsed), tm.Histogram)
+				}
+			}
 			if uint32(len(parsed)) <= limit {
 				for p := range parsedSet {
 					if _, ok := tm.Histogram[gostatsd.HistogramThreshold(p)]; !ok {
